@@ -172,6 +172,14 @@ fn start_generated(p: &mut Prng, arch: Arch) -> Start {
                     specs.push(f.spec.clone());
                 }
             }
+            if p.chance(1, 2) {
+                let u = crate::pe::gen_unusual_pe_func(p, begin);
+                for k in 0..u.bytes.len() as u64 {
+                    rel.push(u.begin as u64 + k);
+                }
+                begin = u.end;
+                specs.push(u);
+            }
             rel.extend_from_slice(&[0x1000, begin as u64, begin as u64 + 0x10]);
             let image_base: u64 = *p.pick(&[0x1_4000_0000u64, 0x40_0000]);
             let base_svma = *p.pick(&[0x1_4000_0000u64, 0]);
@@ -606,7 +614,7 @@ pub fn run(tier: &str, seed: u64, out: Option<&str>) -> Report {
                     props: vec!["C14".into()],
                     kind: "oracle".into(),
                     key: format!("mut-own-panic-{short}"),
-                    what: format!("{phase} panicked in framehop's own code at {loc} on a corrupted {} module (mutations {tags:?})", s.format),
+                    what: format!("{phase} panicked outside the third-party parsers (at {loc}) on a corrupted {} module (mutations {tags:?})", s.format),
                     case: case_text(&s, &probes),
                     impl_out: "panic".into(),
                     model_out: String::new(),
